@@ -120,6 +120,8 @@ type Params struct {
 	// Raw: drive protocol.Mux directly (no socks5 request in front: the application's own
 	// first Write is what rides on the open session request); one session only
 	Raw bool
+	// Stalls: a goroutine may be held up for 5 ms / 1.5 s before an atomic write (a scheduling deviation)
+	Stalls bool
 }
 
 func (p Params) String() string {
@@ -137,6 +139,9 @@ func (p Params) String() string {
 	}
 	if p.Raw {
 		s += " raw-mux"
+	}
+	if p.Stalls {
+		s += " stalls"
 	}
 	if p.WriteGap != 0 {
 		s += fmt.Sprintf(" write-gap=%v", p.WriteGap)
@@ -208,6 +213,9 @@ func ExecWith(p Params, pats []NamedTP, ctl *explore.Ctl, mon Monitor, adjust fu
 	}
 	if cfg.MTU == 0 {
 		cfg.MTU = 1400
+	}
+	if p.Stalls {
+		cfg.Stalls = []time.Duration{5 * time.Millisecond, 1500 * time.Millisecond}
 	}
 	// two registered users, one of each padding strategy mieru derives from the user name
 	// ("alice": ASCII padding, "erin": entropy padding); the seed picks which one the client is
